@@ -572,6 +572,18 @@ def _knots_call(job):
             return ("exc", type(e).__name__, repr(e), str(e))
 
 
+def _knots_sequence(jobs):
+    """several knot searches in ONE process, one after the other, each with a function object that exists only for the duration of its
+    call (`for k in ...: piecewise_polynomial_knots(lambda xs: xs**k, a, b, ns)`): the objects die between the calls, so the interpreter
+    hands the next one the same address; same a, b, ns throughout.  Every search must be about the function it was given."""
+    import gc
+    out = []
+    for job in jobs:
+        out.append(_knots_call(job))      # (make_f builds the callable inside the call; nothing of it survives the return)
+        gc.collect()
+    return out
+
+
 def _knots_pool(jobs):
     import multiprocessing as mp_
     if len(jobs) <= 1:
@@ -584,6 +596,7 @@ def _knots_pool(jobs):
 
 
 def part_knots(rep, rng, drv, tier, A, E, cases=None):
+    replay_free = cases is None
     if cases is None:
         cases = []
         n_cases = 4 if tier == "quick" else 24
@@ -627,6 +640,20 @@ def part_knots(rep, rng, drv, tier, A, E, cases=None):
             cases.append((spec, a, b, ns, r0[2] * 10.0 ** ex))
     reqs, meta = [], []
     outcomes = _knots_pool([(sp_, a_, b_, ns_, at_) for sp_, a_, b_, ns_, at_ in cases])
+    if replay_free:
+        # functions that die between calls (one worker process, sequential, same interval and degrees): x^2, x^3, x^2 again, exp(2x), x^2.5
+        seq = [(G.spec("pow", 2.0), 0.0, 1.0, [1, 1], None), (G.spec("pow", 3.0), 0.0, 1.0, [1, 1], None), (G.spec("pow", 2.0), 0.0, 1.0, [1, 1], None),
+               (G.spec("exp", 2.0), 0.0, 1.0, [1, 1], None), (G.spec("pow", 2.5), 0.0, 1.0, [1, 1], None)]
+        import multiprocessing as mp_
+        try:
+            with mp_.get_context("fork").Pool(1) as pool_:
+                seq_out = pool_.apply(_knots_sequence, (seq,))
+        except Exception:  # noqa: BLE001
+            seq_out = _knots_sequence(seq)
+        for _ in seq:
+            rep.count("knots_sequence_of_short_lived_functions(same a, b, ns)")
+        cases = list(cases) + seq
+        outcomes = list(outcomes) + list(seq_out)
     for (spec, a, b, ns, atol), oc in zip(cases, outcomes):
         f = G.make_f(spec)
         inp = knots_inp(spec, a, b, ns, atol)
